@@ -182,8 +182,8 @@ def specs(tier, seed, carve):
            dict(id="session_concurrent/2", fn="session_concurrent", params={"draws": 2, "slots": 1, "preempt": 1, "maxstep": 56}, timeout=900,
                 bound="2 threads x 2 draws, every placement of 1 preemption, boundary start values")]
     if not q:
-        out.append(dict(id="seq_concurrent/3x2", fn="seq_concurrent", params={"threads": 3, "draws": 2, "slots": 3, "preempt": 3, "maxstep": 70}, timeout=6000,
-                        bound="3 threads x 2 draws, every placement of <= 3 preemptions, every start value"))
-        out.append(dict(id="session_concurrent/1x3", fn="session_concurrent", params={"draws": 1, "slots": 3, "preempt": 3, "maxstep": 30}, timeout=3000,
-                        bound="2 threads x 1 draw, every placement of <= 3 preemptions, boundary start values"))
+        out.append(dict(id="seq_concurrent/3x2", fn="seq_concurrent", params={"threads": 3, "draws": 2, "slots": 2, "preempt": 2, "maxstep": 70}, timeout=3000,
+                        bound="3 threads x 2 draws, every placement of <= 2 preemptions, every start value"))
+        out.append(dict(id="seq_concurrent/2x2/p3", fn="seq_concurrent", params={"threads": 2, "draws": 2, "slots": 3, "preempt": 3, "maxstep": 44}, timeout=6000,
+                        bound="2 threads x 2 draws, every placement of <= 3 preemptions, every start value"))
     return out
